@@ -19,7 +19,7 @@ RULE = ('case = (direction, signer algorithm, hash, signature kind/type, option 
 ASSUMPTIONS = ['cryptography/OpenSSL public-key primitives', 'vf.ref.sig (validated on all fixture self-signatures)', 'gpg 2.2 when present (second acceptor, lenient on subpacket content)']
 MIN_COUNTERS = {'quick': {'pgpy_made_ref_verified': 150, 'pgpy_made_reimport_verified': 150, 'ref_made_pgpy_verified': 150},
                 'thorough': {'pgpy_made_ref_verified': 800, 'ref_made_pgpy_verified': 800}}
-BUDGET = {'quick': (200, 700), 'thorough': (1500, 3600)}
+BUDGET = {'quick': (600, 1500), 'thorough': (1500, 3600)}
 TECHNIQUE = 'runtime monitoring: differential reference-model monitor (independent RFC 4880 5.2.4 verifier and signer) + GnuPG second oracle'
 
 T1 = datetime(2020, 2, 3, 4, 5, 6, tzinfo=timezone.utc)
